@@ -265,7 +265,7 @@ NOT_COVERED = ['partition of unity, continuity across interfaces, polynomial VAL
                'surjectivity of the condensed labels onto range(count)',
                'Basis.get_support one-line body (self._computed_support[dof]); get_ndofs/get_coefficients (normdim + compiled evaluable); __getitem__ dispatch',
                'StructuredBasis.get_support beyond 2 axes and for array / mask arguments (the _int_or_vec contract covers the dispatch); StructuredBasis.f_dofs_coeffs beyond 3 axes',
-               'PrunedBasis.get_support / MaskedBasis.get_support for array arguments; LegendreBasis, _DiscontinuousPartitionBasis; Basis.__init__ itself (compiles f_dofs_coeffs) and Basis.__getitem__ (mask of the wrong length falls through to Array.__getitem__)',
+               'PrunedBasis.get_support / MaskedBasis.get_support for array arguments; LegendreBasis, _DiscontinuousPartitionBasis; Basis.__init__ itself (compiles f_dofs_coeffs); the slice branch of Basis.__getitem__',
                '_basis_c0_structured, get_edge_dofs, _basis_spline are covered by BOUNDED native enumeration only (contracts/C12_tables.py): unstructured / simplex / mixed topologies, degree > 3, more than 4 elements per axis, '
                'non-integer knot values, tensor-product splines (per-axis code is shared), spline coefficient VALUES (polynomial pieces) are outside',
                '_basis_c0_structured with exactly TWO elements across a periodic direction: wrong merge (PARKED contract, candidate defect D3 in notes/C12-c12b.md)',
